@@ -184,7 +184,7 @@ class ShardState:
         self.timeouts = 0
         self.timeout_cases: List[Any] = []
         self.first_fail_time: Optional[float] = None
-        self.shrink_budget = 25.0 if tier == "quick" else 120.0
+        self.shrink_budget = float(os.environ.get("VF_SHRINK_BUDGET", 25.0 if tier == "quick" else 120.0))
         self.give_up = False
         # the worker winds down by itself at its wall budget so that what it
         # covered is reported; the parent only kills it as a last resort
